@@ -147,7 +147,7 @@ func TestC18(t *testing.T) {
 		c18Child(r, strings.Fields(lines[0])[1], lines[1:], 0)
 		return
 	}
-	if os.Getenv("VERIF_REPLAY") == "" {
+	if os.Getenv("VERIF_REPLAY") == "" && os.Getenv("C18_NO_PKGS") == "" { // C18_NO_PKGS: C12 runs this harness as one of its packages
 		corePost = func(r *Run) {
 			for i, pk := range c18Pkgs {
 				c18Child(r, pk.Test, nil, r.Seed*31+uint64(i))
